@@ -99,11 +99,11 @@ Definition pick (n : str) (t : ty) (vp va : val) : outcome val :=
 
 Definition all_vnil (l : list val) : bool := forallb is_vnil l.
 
-(* the values of the exported fields (unexported ones are never translated,
+(* the values of the xexported fields (unexported ones are never translated,
    so they cannot make an embedded pointer "set") *)
 Fixpoint exported_only (fs : fields) (vals : list val) : list val :=
   match fs, vals with
-  | FCons n _ _ _ r, v :: vr => if exported n then v :: exported_only r vr else exported_only r vr
+  | FCons n _ _ _ r, v :: vr => if xexported n then v :: exported_only r vr else exported_only r vr
   | _, _ => []
   end.
 
@@ -176,7 +176,7 @@ with nspec_fields (fs : fields) (env : named) {struct fs} : outcome (list val) :
   match fs with
   | FNil => Ok []
   | FCons n tg an t r =>
-      x <- (if negb (exported n) then Ok (zero t)
+      x <- (if negb (xexported n) then Ok (zero t)
             else if sh_anon sh && an then
               (* an embedded struct: its fields are found in the enclosing struct *)
               match t with
@@ -195,7 +195,7 @@ with nspec_fields_in (fs : fields) (env : named) {struct fs} : outcome (list val
   match fs with
   | FNil => Ok []
   | FCons n tg an t r =>
-      x <- (if negb (exported n) then Ok (zero t) else named_field (nspec_ty t) n tg t env) ;;
+      x <- (if negb (xexported n) then Ok (zero t) else named_field (nspec_ty t) n tg t env) ;;
       rest <- nspec_fields_in r env ;;
       Ok (x :: rest)
   end.
@@ -239,7 +239,7 @@ with fspec_fields (names : list str) (fs : fields) {struct fs} : outcome (list v
   match fs with
   | FNil => Ok []
   | FCons n tg an t r =>
-      x <- (if negb (exported n) then Ok (zero t)
+      x <- (if negb (xexported n) then Ok (zero t)
             else
               p <- fspec_ty (if an then names else names ++ [n]) t ;;
               if aliased tg then
